@@ -44,7 +44,7 @@ type w13Known struct {
 	keys map[string]bool
 	// root causes, see /verif/harness/notes/C13.md
 	shortFrame, args2flag, setexArity, appendNil, callDbid, incrNoValue, lockData, scanArity, valueOffset,
-	lessVersion, elemBounds, propWalk, errMsg12, willRecursion, ackUnheld, recoverNil, execAlloc, unlockAckPending bool
+	lessVersion, elemBounds, propWalk, errMsg12, willRecursion, ackUnheld, recoverNil, execAlloc, unlockAckPending, freeList bool
 }
 
 var (
@@ -77,6 +77,8 @@ func w13KnownKeys() *w13Known {
 		// command is freed while the Lock stays in the time-out wheel; the sweep later uses and frees the
 		// stale command / Lock (another connection's request is corrupted, or the sweep goroutine dies)
 		k.unlockAckPending = k.fn("server.(*LockDB).UnLock")
+		// a connection's private free list of LockCommands (64 entries) overflows when it frees more
+		k.freeList = k.fn("server.(*BinaryServerProtocol).FreeLockCommand") || k.fn("server.(*TextServerProtocol).FreeLockCommand")
 		w13KnownVal = k
 	})
 	return w13KnownVal
@@ -357,6 +359,11 @@ func (g *w13Gen) genValueFrameIn(depth int, db byte, embedded bool) ([]byte, str
 		return out, fmt.Sprintf("data[exact len=%d %x]", l, body[:w13Min(l, 8)])
 	}
 
+	if depth > 0 && !embedded && g.pct("vfExecTight", 4) {
+		// EXECUTE frame with a property block and a nested length that is tight around the truth (c13_pools_test.go)
+		f, d, _, _ := g.genExecTightFrame(byte(g.n("vfExecTightStage", 0, 3)), db)
+		return f, d
+	}
 	typ := byte(g.n("vfType", 0, 8))
 	if g.pct("vfTypeUnknown", 4) {
 		typ = byte(g.n("vfTypeHigh", 9, 63))
@@ -1779,6 +1786,11 @@ func w13GenCaseVariant(t *rapid.T, st *vStat, timers bool) *w13Case {
 	if !timers && g.pct("shapeReplyBatch", 12) {
 		g.focus = true
 		conns = g.genReplyBatchCase(c)
+	} else if !timers && g.pct("shapePool", 7) {
+		conns = g.genPoolCase(c)
+	} else if g.pct("shapeExecTight", 6) {
+		g.focus = true
+		conns = g.genExecTightCase(c)
 	} else if g.pct("shapeWriterReader", 30) {
 		// writer (keeps the hold) -> reader on the other protocol (80 %) or the same one, then maybe one more
 		g.focus = true
@@ -1886,6 +1898,7 @@ func w13Classes(c *w13Case, info w13Info) (cls []string, nontrivial bool) {
 		if c.Cross == "header fits, header+value does not" || c.Cross == "does not fit" || c.Cross == "only value replies" {
 			add("pipelined batch whose replies cross the 4096-byte writer buffer with a value reply")
 		}
+	} else if w13PoolClasses(c, add) {
 	} else if c.Shape != "" {
 		add("shape " + c.Shape)
 	}
